@@ -205,6 +205,9 @@ class Dispatcher:
             # special case for *IDN?
             if action == IDENTREQUEST:
                 action, specifier, data = '_ident', None, None
+            elif action.startswith('_'):
+                # internal handler names must not be reachable from the wire
+                raise ProtocolError(f'unhandled message: {repr(msg)}')
 
             self.log.debug('Looking for handle_%s', action)
             handler = getattr(self, f'handle_{action}', None)
